@@ -227,7 +227,40 @@ Proof.
   unfold any_of in Ha. rewrite Ha. reflexivity.
 Qed.
 
-(* ---- the order-dependent patterns: refuting pairs ---- *)
+
+(* ---- compositions used by the repaired sites: sort (or take the minimum) first, then do the order-sensitive thing ---- *)
+Lemma perm_filter {A} (p : A -> bool) l l' : Permutation l l' -> Permutation (filter p l) (filter p l').
+Proof.
+  intro HP. induction HP; cbn [filter].
+  - apply Permutation_refl.
+  - destruct (p x); [apply perm_skip|]; exact IHHP.
+  - destruct (p x), (p y); try apply Permutation_refl. apply perm_swap.
+  - eapply Permutation_trans; eassumption.
+Qed.
+
+Lemma nodup_keys_filter {V} (p : nat * V -> bool) (l : list (nat * V)) : NoDup (map fst l) -> NoDup (map fst (filter p l)).
+Proof.
+  induction l as [|a l IH]; intro H; cbn [filter map]; [constructor|].
+  cbn [map] in H. inversion H as [|? ? Hn Hd]; subst.
+  destruct (p a); [|apply IH; exact Hd]. cbn [map]. constructor; [|apply IH; exact Hd].
+  intro Hi. apply Hn. apply in_map_iff in Hi as [x [Hx Hin]]. apply filter_In in Hin as [Hin _].
+  rewrite <- Hx. apply in_map. exact Hin.
+Qed.
+
+(* anything computed from the list sorted by pairwise distinct keys *)
+Theorem perm_invariant_after_sort_by_key {V B} (f : list (nat * V) -> B) l l' :
+  NoDup (map fst l) -> Permutation l l' -> f (isort _ (key_leb V) l) = f (isort _ (key_leb V) l').
+Proof. intros Hnd HP. f_equal. apply perm_invariant_sort_by_key; assumption. Qed.
+
+(* `.filter(p).min_by_key(key)` with distinct keys *)
+Theorem perm_invariant_filter_min_by_key {V} (p : nat * V -> bool) l l' :
+  NoDup (map fst l) -> Permutation l l' ->
+  hd_error (isort _ (key_leb V) (filter p l)) = hd_error (isort _ (key_leb V) (filter p l')).
+Proof.
+  intros Hnd HP. f_equal. apply perm_invariant_sort_by_key; [apply nodup_keys_filter; exact Hnd | apply perm_filter; exact HP].
+Qed.
+
+(* ---- LIBRARY: the order-sensitive patterns are really order-sensitive (why the sites sort first) ---- *)
 Theorem head_of_refuted : exists l l' : list nat, Permutation l l' /\ head_of nat l <> head_of nat l'.
 Proof. exists [1; 2], [2; 1]. split; [apply perm_swap | discriminate]. Qed.
 
